@@ -780,16 +780,47 @@ func ruleFileRoundBookkeeping(c *Ctx, r *Rule) {
 	// the next round starts from the saved tail
 	if accum != nil {
 		fromTail := false
+		var seedIn ssa.Instruction
 		for _, in := range accum.inputs {
 			if call, ok := isBuiltinCall(instrOf(in), "append"); ok && len(call.Call.Args) == 2 && isLoadOfField(call.Call.Args[1], fileInPkg, "Job", "tail") {
 				if sl, isSl := call.Call.Args[0].(*ssa.Slice); isSl && sl.High != nil {
 					if k, isK := constInt(sl.High); isK && k == 0 {
 						fromTail = true
+						seedIn = instrOf(in)
 					}
 				}
 			}
 		}
 		r.Ob(fromTail, "worker.work|round-starts-from-tail", fn.Pos(), "a round's accumulation buffer starts as exactly the job's saved tail (emptied buffer + Job.tail)")
+		// ... on every round: the buffer belongs to the worker and is reused for every job, so a path
+		// from taking the next job to the first Read that skips the re-seeding leaves the previous
+		// job's remainder in front of this job's first line
+		if seedIn != nil {
+			var recv ssa.Instruction
+			for _, b := range fn.Blocks {
+				for _, in := range b.Instrs {
+					if u, ok := in.(*ssa.UnOp); ok && u.Op == token.ARROW && recv == nil {
+						if _, f, _, okf := loadedField(stripConv(u.X)); okf && f == "jobsChan" {
+							recv = in
+						}
+					}
+				}
+			}
+			if recv != nil {
+				isRead := func(in ssa.Instruction) bool {
+					for _, rd := range s.reads {
+						if in == ssa.Instruction(rd) {
+							return true
+						}
+					}
+					return false
+				}
+				skip, _ := c.pathExists(fn, recv, isRead, func(in ssa.Instruction) bool { return in == seedIn })
+				r.Ob(!skip, "worker.work|every-round-starts-from-tail", seedIn.Pos(), "between taking a job and its first Read the accumulation buffer is always re-seeded from that job's tail (the buffer is the worker's, shared by all its jobs)")
+			} else {
+				r.Ob(false, "worker.work|every-round-starts-from-tail", fn.Pos(), "the job receive could not be identified")
+			}
+		}
 	} else {
 		r.Ob(false, "worker.work|round-starts-from-tail", fn.Pos(), "the accumulation buffer could not be identified")
 	}
@@ -954,6 +985,53 @@ func ruleFilePositionOwnership(c *Ctx, r *Rule) {
 	if seek == nil || work == nil {
 		r.Unresolved("Job.seek / worker.work")
 		return
+	}
+	// where a job may be positioned: at the end of the file only by the tail-mode initialiser (selected by
+	// the mode parameter); anywhere else at 0, at the position it already has, or back at a position
+	// that was read from it in the same function (the maintenance reopen)
+	for _, cs := range c.sitesOf(seek) {
+		args := cs.Common().Args
+		if len(args) < 3 {
+			continue
+		}
+		whence, isK := constInt(args[2])
+		r.Inst(1)
+		name := c.fnName(cs.Parent())
+		if !isK {
+			r.Ob(false, name+"|seek-whence", cs.Pos(), "Job.seek is called with a constant whence")
+			continue
+		}
+		switch whence {
+		case 2: // io.SeekEnd
+			byMode := false
+			for _, l := range c.unitGuards(cs) {
+				if op, x, y, ok := cmpLit(l); ok && op == token.EQL {
+					if _, isC := constInt(y); isC && paramIndex(cs.Parent(), stripConv(x)) >= 0 {
+						byMode = true
+					}
+				}
+			}
+			r.Ob(byMode, name+"|seek-end-only-in-tail-mode", cs.Pos(), "a job is positioned relative to the END of its file only by the initialiser's tail mode (anywhere else the bytes appended since the job's own offset would be skipped without being read)")
+		case 0: // io.SeekStart
+			okPos := false
+			if k, isC := constInt(args[1]); isC && k == 0 {
+				okPos = true
+			}
+			for _, leaf := range phiLeaves(stripConv(args[1])) {
+				if call, isCall := leaf.(*ssa.Call); isCall && call.Call.StaticCallee() == seek {
+					okPos = true
+				}
+			}
+			if !okPos {
+				// the initialiser's resume position: computed from the loaded offsets (decided by C03.R5)
+				for _, a := range c.fieldAccesses(fileInPkg, "jobProvider", "loadedOffsets") {
+					if a.fn == cs.Parent() {
+						okPos = true
+					}
+				}
+			}
+			r.Ob(okPos, name+"|seek-start-position", cs.Pos(), "an absolute position given to a job is 0, a position read from the same job earlier in the function, or the initialiser's resume offset")
+		}
 	}
 	// (*os.File).Seek / Read* only where allowed
 	for _, fn := range c.ModFuncs {
